@@ -37,9 +37,8 @@ def _reciprocal(val):
     return 1 / val
 
 
-_UFUNC_OPERATORS = {np.add: operator.add, np.subtract: operator.sub,
-                    np.multiply: operator.mul, np.true_divide: operator.truediv,
-                    np.power: operator.pow}
+_UFUNC_OPERATORS = {np.add: 'add', np.subtract: 'sub', np.multiply: 'mul',
+                    np.true_divide: 'truediv', np.power: 'pow'}
 
 
 class Prior(HoloPyObject):
@@ -133,9 +132,15 @@ class Prior(HoloPyObject):
                 # treat them like the same operation with a python number
                 # (adding 0 or multiplying by 1 gives the prior itself,
                 # multiplying by 0 raises)
-                args = [arg.item() if isinstance(arg, np.generic) else arg
-                        for arg in args]
-                return operation(*args)
+                left, right = [arg.item() if isinstance(arg, np.generic)
+                               else arg for arg in args]
+                # (call the prior's own method: the operator of a numpy
+                # scalar that .item() leaves as it is, like longdouble,
+                # would come back here forever)
+                if isinstance(left, Prior):
+                    return getattr(left, '__%s__' % operation)(right)
+                else:
+                    return getattr(right, '__r%s__' % operation)(left)
             return TransformedPrior(ufunc, args, name)
         else:
             raise TypeError('Could not apply numpy ufunc to Prior object. '
